@@ -83,6 +83,35 @@ impl Drop for File {
     }
 }
 
+/// wide three-level tree of three node types: a Dir owns n Files (in a Vec), each File owns a Blob;
+/// nothing is handed out by pop_edges, every edge is released by a destructor
+pub struct WFile {
+    _data: AtomicRc<Blob>,
+}
+unsafe impl RcObject for WFile {
+    fn pop_edges(&mut self, _: &mut Vec<Rc<Self>>) {}
+}
+impl Drop for WFile {
+    fn drop(&mut self) {
+        DROPS.fetch_add(1, SeqCst);
+    }
+}
+pub struct WDir {
+    _files: Vec<AtomicRc<WFile>>,
+}
+unsafe impl RcObject for WDir {
+    fn pop_edges(&mut self, _: &mut Vec<Rc<Self>>) {}
+}
+impl Drop for WDir {
+    fn drop(&mut self) {
+        DROPS.fetch_add(1, SeqCst);
+    }
+}
+fn build_wdir(n: usize) -> (Rc<WDir>, usize) {
+    let files = (0..n).map(|_| AtomicRc::new(WFile { _data: AtomicRc::new(Blob) })).collect();
+    (Rc::new(WDir { _files: files }), 2 * n + 1)
+}
+
 fn settle(rounds: usize) {
     for _ in 0..rounds {
         let g = cs();
@@ -195,6 +224,11 @@ pub fn child_c07(shape: &str, n: usize, stack: usize) {
                     expected = k;
                     drop(t);
                 }
+                "wdir" => {
+                    let (t, k) = build_wdir(n);
+                    expected = k;
+                    drop(t);
+                }
                 _ => {
                     let (t, k) = build_dir(n);
                     expected = k;
@@ -283,6 +317,22 @@ pub fn child_c06(shape: &str, n: usize, residue: usize, age: usize, held: usize)
 }
 
 // C20 ---------------------------------------------------------------------------------------------
+/// object shared with a reader thread that keeps a Snapshot of it under a guard while the other
+/// thread exits; released by the exiting thread's late destructor
+pub struct Watched;
+unsafe impl RcObject for Watched {
+    fn pop_edges(&mut self, _: &mut Vec<Rc<Self>>) {}
+}
+static WATCHED_DROPPED: AtomicUsize = AtomicUsize::new(0);
+impl Drop for Watched {
+    fn drop(&mut self) {
+        WATCHED_DROPPED.fetch_add(1, SeqCst);
+    }
+}
+fn shared() -> &'static AtomicRc<Watched> {
+    static C: std::sync::OnceLock<AtomicRc<Watched>> = std::sync::OnceLock::new();
+    C.get_or_init(AtomicRc::null)
+}
 struct Late {
     kind: usize,
     stash: RefCell<Vec<Rc<L>>>,
@@ -290,6 +340,11 @@ struct Late {
 }
 impl Drop for Late {
     fn drop(&mut self) {
+        {
+            // unlink the object a reader is looking at: it must outlive the reader's critical section
+            let g = cs();
+            shared().store(Rc::null(), SeqCst, &g);
+        }
         // runs as a TLS destructor; depending on registration order the participant handle of this
         // thread is already destroyed
         match self.kind {
@@ -339,6 +394,24 @@ pub const NKIND: usize = 8;
 /// the library, optionally leaves garbage pending, and exits; the main thread then collects.
 pub fn child_c20(kind: usize, order: usize, pending: usize) {
     let made = 3 + pending;
+    {
+        let g = cs();
+        shared().store(Rc::new(Watched), SeqCst, &g);
+    }
+    // the reader pins, takes a snapshot and holds both until the other thread is gone
+    let (rtx, rrx) = std::sync::mpsc::channel::<()>();
+    let (dtx, drx) = std::sync::mpsc::channel::<()>();
+    let reader = std::thread::spawn(move || {
+        let g = cs();
+        let s = shared().load(SeqCst, &g);
+        assert!(!s.is_null());
+        rtx.send(()).unwrap();
+        drx.recv().unwrap(); // the other thread has exited (its late destructors ran)
+        let ok = WATCHED_DROPPED.load(SeqCst) == 0;
+        drop(g);
+        ok
+    });
+    rrx.recv().unwrap();
     let h = std::thread::spawn(move || {
         let mk = || Late { kind, stash: RefCell::new(Vec::new()), cell: AtomicRc::null() };
         if order == 0 {
@@ -363,6 +436,8 @@ pub fn child_c20(kind: usize, order: usize, pending: usize) {
         }
     });
     let joined = h.join().is_ok();
+    dtx.send(()).unwrap();
+    let reader_ok = reader.join().unwrap_or(false);
     let mut rounds = 0;
     // objects: 3 stashed + 1 in the cell (dropped with the TLS object) + pending
     let expected = made + 1;
@@ -370,7 +445,14 @@ pub fn child_c20(kind: usize, order: usize, pending: usize) {
         settle(1);
         rounds += 1;
     }
-    println!("{{\"joined\":{},\"drops\":{},\"expected\":{},\"rounds\":{}}}", joined as u8, DROPS.load(SeqCst), expected, rounds);
+    while WATCHED_DROPPED.load(SeqCst) == 0 && rounds < 40_000 {
+        settle(1);
+        rounds += 1;
+    }
+    println!(
+        "{{\"joined\":{},\"drops\":{},\"expected\":{},\"rounds\":{},\"reader_ok\":{},\"watched_dropped\":{}}}",
+        joined as u8, DROPS.load(SeqCst), expected, rounds, reader_ok as u8, WATCHED_DROPPED.load(SeqCst)
+    );
 }
 
 // C15 shapes --------------------------------------------------------------------------------------
@@ -447,7 +529,7 @@ pub fn run_parent(kind: &str, tier: &str, exe: &str) -> Vec<String> {
             let mut v: Vec<(&str, usize, usize)> = vec![
                 ("chain", 1_000_000, 8 << 20), ("chain", 1_000_000, 2 << 20), ("chain", 200_000, 1 << 20), ("chain", 1025, 1 << 20),
                 ("tree", 18, 2 << 20), ("tree", 16, 1 << 20), ("cons", 100_000, 2 << 20), ("cons", 30_000, 1 << 20),
-                ("rpath", 200_000, 2 << 20), ("rpath", 50_000, 1 << 20), ("dir", 300_000, 1 << 20), ("dir", 600_000, 2 << 20),
+                ("rpath", 200_000, 2 << 20), ("rpath", 50_000, 1 << 20), ("dir", 300_000, 1 << 20), ("dir", 600_000, 2 << 20), ("wdir", 600_000, 2 << 20), ("wdir", 300_000, 1 << 20),
                 // below the documented minimum for a 1024-deep recursion: known finding h
                 ("chain", 200_000, 128 << 10),
             ];
